@@ -15,7 +15,7 @@ pub const DEF: PropDef = PropDef {
     run,
     replay,
     level: "exploration",
-    rule: "bounded-exhaustive: for every pattern (38 base; thorough: plus a psk variant each) and both roles, ALL sequences of handshake-phase calls over {write with ample buffer, write with empty buffer, read genuine next message (from a shadow peer), read stale (previous) message, read 10 bytes of garbage} up to depth #messages+1 (thorough: +2); at EVERY node of that tree both conversions (stateful, stateless) and, when they succeed, all length-2 sequences over {transport write, transport read genuine, transport read garbage}; plus random longer sequences. Ephemerals come from the resolver's random source, which yields OTHER bytes while a call the model expects to fail is running than during valid calls (an out-of-phase call that re-draws the live ephemeral then breaks the next genuine message). Model: (position, role). Expected per call: success exactly when the model allows; otherwise State(NotTurnToWrite|NotTurnToRead) before completion, State(HandshakeAlreadyFinished|NotTurnTo..) after it, State(HandshakeNotFinished) for early conversion, State(OneWay) for the forbidden transport direction; after every call is_handshake_finished()==(position==#messages), is_initiator() constant, and while unfinished is_my_turn()==(initiator XOR position odd); a failed call leaves the indicators unchanged. Non-trivial = the sequence contains at least one out-of-phase call; distinct by (pattern, role, sequence)",
+    rule: "bounded-exhaustive (suite - all three ciphers, four hashes, 25519 and P-256 - and key material rotate with the case): for every pattern (38 base; thorough: plus a psk variant each) and both roles, ALL sequences of handshake-phase calls over {write with ample buffer, write with empty buffer, read genuine next message (from a shadow peer), read stale (previous) message, read 10 bytes of garbage} up to depth #messages+1 (thorough: +2); at EVERY node of that tree both conversions (stateful, stateless) and, when they succeed, all length-2 sequences over {transport write, transport read genuine, transport read garbage}; plus random longer sequences. Ephemerals come from the resolver's random source, which yields OTHER bytes while a call the model expects to fail is running than during valid calls (an out-of-phase call that re-draws the live ephemeral then breaks the next genuine message). Model: (position, role). Expected per call: success exactly when the model allows; otherwise State(NotTurnToWrite|NotTurnToRead) before completion, State(HandshakeAlreadyFinished|NotTurnTo..) after it, State(HandshakeNotFinished) for early conversion, State(OneWay) for the forbidden transport direction; after every call is_handshake_finished()==(position==#messages), is_initiator() constant, and while unfinished is_my_turn()==(initiator XOR position odd); a failed call leaves the indicators unchanged. Non-trivial = the sequence contains at least one out-of-phase call; distinct by (pattern, role, sequence)",
     technique: "bounded-exhaustive model-based testing of call sequences (every node of the call tree to the depth bound) + proptest random sequences",
     assumptions: &["where an out-of-phase call also has a malformed argument (empty buffer), either the state error or the input error is accepted: the statement fixes no precedence"],
     panic_is_violation: false,
@@ -44,6 +44,9 @@ pub struct Case {
     /// conversion attempted after the handshake ops: Some(stateless)
     pub conv: Option<bool>,
     pub t_ops: Vec<u8>,
+    /// suite / key selector; None = derived from the calls (control runs pin the original's)
+    #[serde(default)]
+    pub hcase: Option<u64>,
 }
 
 fn is_state(r: &Result<usize, Error>, allowed: &[SP]) -> bool {
@@ -54,17 +57,26 @@ fn is_state(r: &Result<usize, Error>, allowed: &[SP]) -> bool {
 /// model classifies as in phase, failing ones included).
 /// True if that reduced sequence fails as well - then the failure observed in
 /// the full sequence is not an effect of its out-of-phase calls.
+/// Which suite / key material a case runs with (a hash of its calls unless pinned).
+fn case_selector(c: &Case) -> u64 {
+    c.hcase.unwrap_or_else(|| c.hs_ops.iter().chain(c.t_ops.iter()).fold(c.pattern.len() as u64 * 31 + c.initiator as u64, |a, b| a.wrapping_mul(131).wrapping_add(*b as u64 + 1)))
+}
+
 fn control_fails(c: &Case, hs_kept: &[u8], t_kept: &[u8]) -> bool {
-    let ctl = Case { pattern: c.pattern.clone(), psks: c.psks.clone(), initiator: c.initiator, hs_ops: hs_kept.to_vec(), conv: c.conv, t_ops: t_kept.to_vec() };
+    let ctl = Case { pattern: c.pattern.clone(), psks: c.psks.clone(), initiator: c.initiator, hs_ops: hs_kept.to_vec(), conv: c.conv, t_ops: t_kept.to_vec(), hcase: Some(case_selector(c)) };
     oracle(&ctl, &mut Acc::default()).is_err()
 }
 
 fn oracle(c: &Case, acc: &mut Acc) -> CaseResult {
     let hs = HsName { pattern: c.pattern.clone(), psks: c.psks.clone() };
     let suites = all_suites();
-    // 25519 / ChaChaPoly / BLAKE2s for speed
-    let suite = *suites.iter().find(|s| s.dh == crate::refcrypto::DhKind::X25519 && s.cipher == crate::refcrypto::CipherKind::ChaChaPoly && s.hash == crate::refcrypto::HashKind::Blake2s).unwrap();
-    let mut spec = SessionSpec::simple(hs, suite, 0xC11);
+    // the suite and the key material rotate with the case (mostly 25519 for speed, one case in
+    // 16 on P-256): the state machine must not depend on them
+    let hcase = case_selector(c);
+    let x25519: Vec<_> = suites.iter().filter(|s| s.dh == crate::refcrypto::DhKind::X25519).collect();
+    let p256: Vec<_> = suites.iter().filter(|s| s.dh == crate::refcrypto::DhKind::P256).collect();
+    let suite = if hcase % 16 == 7 { *p256[(hcase / 16) as usize % p256.len()] } else { *x25519[(hcase / 16) as usize % x25519.len()] };
+    let mut spec = SessionSpec::simple(hs, suite, 0xC11 + hcase % 64);
     // ephemerals come from the resolver's random source (the production path); while a call that
     // the model expects to FAIL runs, that source yields other bytes than during the valid calls,
     // so an out-of-phase call that re-draws the live ephemeral has a visible effect later
@@ -369,7 +381,7 @@ pub fn run(ctx: &Ctx) {
             for node in 0..nodes {
                 let hs_ops = nth_seq(node, 5);
                 let finished = model_pos(nm, role, &hs_ops) == nm;
-                let mk = |conv: Option<bool>, t_ops: Vec<u8>| Case { pattern: name.clone(), psks: psks.clone(), initiator: role, hs_ops: hs_ops.clone(), conv, t_ops };
+                let mk = |conv: Option<bool>, t_ops: Vec<u8>| Case { pattern: name.clone(), psks: psks.clone(), initiator: role, hs_ops: hs_ops.clone(), conv, t_ops, hcase: None };
                 if !finished {
                     // the plain sequence is a prefix of the conversion variants
                     cases.push(mk(Some(false), vec![]));
@@ -411,7 +423,7 @@ pub fn run(ctx: &Ctx) {
                     let (name, nm) = &names[pick(pi, names.len())];
                     let _ = seed;
                     let psks = if pk % 3 == 0 { vec![(pk / 3) as u8 % (*nm as u8 + 1)] } else { vec![] };
-                    Case { pattern: name.clone(), psks, initiator, hs_ops, conv, t_ops }
+                    Case { pattern: name.clone(), psks, initiator, hs_ops, conv, t_ops, hcase: None }
                 })
         },
         oracle,
